@@ -174,6 +174,8 @@ type forgeCase struct {
 	infos   []path.InfoField
 	hops    []path.HopField
 	vHop    int // the hop field that is validated last in this AS (h, or h+1 after a cross-over)
+	beta    uint16 // accumulator value the MAC of hop h was computed with
+	beta2   uint16 // same for the first hop of the next segment at a cross-over
 	opts    forgeOpts
 }
 
@@ -392,6 +394,7 @@ func genForge(rt *rapid.T, l *lab, now time.Time) *forgeCase {
 func (k *forgeCase) remac(key []byte, beta, beta2 uint16) {
 	h := k.h
 	s := k.segOf(h)
+	k.beta, k.beta2 = beta, beta2
 	mac := func(hf *path.HopField, b uint16, ts uint32) {
 		hf.Mac = ref.HopMAC(key, b, ts, hf.ExpTime, hf.ConsIngress, hf.ConsEgress)
 	}
